@@ -469,15 +469,18 @@ Definition adjust_flags (cr : option string) (rp : response) : list bool :=
 Lemma groups_of_eq cr rp : groups_of cr rp = adjust_groups cr rp ++ map update_group (rp_updates rp).
 Proof. reflexivity. Qed.
 
+(* distinct annotation keys matter only where an adjustment is processed: in a creation request *)
+Definition wf_for (cr : option string) (rp : response) : Prop := cr = None \/ wf_rp rp.
+
 Lemma apply_adjust_flags cr rp s oa d s1 :
-  wf_rp rp -> SInv cr s oa -> apply_adjust rp s = Ok s1 ->
+  wf_for cr rp -> SInv cr s oa -> apply_adjust rp s = Ok s1 ->
   s_updates s1 = s_updates s /\ s_update s1 = s_update s /\
   exists o2, SInv cr s1 o2 /\ abs_run (adjust_groups cr rp) oa d = Some (o2, d ++ adjust_flags cr rp).
 Proof.
   intros Hwf HI. unfold apply_adjust, adjust_groups, adjust_flags. destruct HI as [Hl Hc].
   destruct (s_create s) as [c|] eqn:Ec.
   - destruct Hc as [-> HP]. destruct (rp_adjust rp) as [p|] eqn:Ep.
-    + unfold wf_rp in Hwf. rewrite Ep in Hwf.
+    + destruct Hwf as [Hwf|Hwf]; [discriminate|]. unfold wf_rp in Hwf. rewrite Ep in Hwf.
       pose proof (adjust_ledger p c (s_adjust s) (s_own s) oa Hwf HP Hl) as Ha.
       cbn [abs_run adjust_group g_ignorable].
       change (fold_left (fun o k => lremove k o) ?rs oa) with (releases rs oa).
@@ -521,7 +524,7 @@ Proof.
 Qed.
 
 Lemma apply_response_flags cr own rp s oa d h s' :
-  wf_rp rp -> SInv cr s oa -> UInv own h s -> apply_response rp s = Ok s' ->
+  wf_for cr rp -> SInv cr s oa -> UInv own h s -> apply_response rp s = Ok s' ->
   exists oa' fl,
     abs_run (groups_of cr rp) oa d = Some (oa', d ++ fl) /\ length fl = length (groups_of cr rp) /\
     SInv cr s' oa' /\
@@ -556,7 +559,7 @@ Lemma all_groups_cons cr rp rps : all_groups cr (rp :: rps) = groups_of cr rp ++
 Proof. reflexivity. Qed.
 
 Lemma run_plugins_flags cr own rps : forall s oa d views h s',
-  Forall wf_rp rps -> SInv cr s oa -> UInv own h s ->
+  Forall (wf_for cr) rps -> SInv cr s oa -> UInv own h s ->
   snd (run_plugins rps s views) = Ok s' ->
   exists oa' fl,
     abs_run (all_groups cr rps) oa d = Some (oa', d ++ fl) /\
@@ -594,8 +597,8 @@ Proof. destruct rq; reflexivity. Qed.
 
 (* (i) flags alignment for a whole request: the flagged updates of the reference are the updates of
    the history, in order, each with the model's own drop decision *)
-Theorem flags_alignment rq rps s :
-  Forall wf_rp rps -> snd (run_request rq rps) = Ok s ->
+Theorem flags_alignment_gen rq rps s :
+  Forall (wf_for (req_created rq)) rps -> snd (run_request rq rps) = Ok s ->
   exists oa fl,
     abs_run (all_groups (req_created rq) rps) [] [] = Some (oa, fl) /\
     flagged_updates (req_created rq) rps fl = combine (concat (map rp_updates rps)) (run_drops rps (init_state rq)) /\
@@ -606,6 +609,30 @@ Proof.
   destruct (run_plugins_flags (req_created rq) (own_of rq) rps (init_state rq) [] [] [] [] s Hwf (SInv_init rq) (UInv_init rq) Hrun)
     as [oa [fl [Hr [_ [Hf [Hl HU]]]]]].
   exists oa, fl. cbn [app] in *. split; [exact Hr|]. split; [exact Hf|]. split; [exact Hl|exact HU].
+Qed.
+
+Theorem flags_alignment rq rps s :
+  Forall wf_rp rps -> snd (run_request rq rps) = Ok s ->
+  exists oa fl,
+    abs_run (all_groups (req_created rq) rps) [] [] = Some (oa, fl) /\
+    flagged_updates (req_created rq) rps fl = combine (concat (map rp_updates rps)) (run_drops rps (init_state rq)) /\
+    length (run_drops rps (init_state rq)) = length (concat (map rp_updates rps)) /\
+    UInv (own_of rq) (flagged_updates (req_created rq) rps fl) s.
+Proof.
+  intros Hwf. apply flags_alignment_gen. apply (Forall_impl _ (fun rp H => or_intror H) Hwf).
+Qed.
+
+(* update and stop requests process no adjustment: nothing at all is assumed of the responses *)
+Theorem flags_alignment_no_create rq rps s :
+  req_created rq = None -> snd (run_request rq rps) = Ok s ->
+  exists oa fl,
+    abs_run (all_groups None rps) [] [] = Some (oa, fl) /\
+    flagged_updates None rps fl = combine (concat (map rp_updates rps)) (run_drops rps (init_state rq)) /\
+    length (run_drops rps (init_state rq)) = length (concat (map rp_updates rps)) /\
+    UInv (own_of rq) (flagged_updates None rps fl) s.
+Proof.
+  intros Hn Hrun. rewrite <- Hn. apply flags_alignment_gen; [|exact Hrun].
+  apply Forall_forall. intros rp _. left. exact Hn.
 Qed.
 
 (* the exact statement: the reference IS the model's output, entry by entry, value by value *)
